@@ -1274,6 +1274,21 @@ func gen(tier string, seed uint64) []runner.Scenario {
 			}
 		}
 	}
+	// directed sequences around one parked write: sends, raw writes and terminal calls queue up behind
+	// it while packets arrive, and a receive is issued in that state (it must not wait for the write lock
+	// once a send has been made, and must get what has been delivered)
+	for _, first := range []string{W, S} {
+		for _, q := range [][]string{{S}, {W}, {S, S}, {S, W}, {CS}, {S, CS}, {}} {
+			for _, pk := range []string{RM, RCS, RMU} {
+				for _, tail := range [][]string{{R}, {R, R}, {R, CS}} {
+					seq := append(append(append([]string{first}, q...), pk), tail...)
+					id := fmt.Sprintf("directed/%s/park@0", strings.Join(seq, "."))
+					sq := seq
+					out = append(out, runner.Scenario{ID: id, Run: func() runner.Result { return runSequence(id, sq, 0) }})
+				}
+			}
+		}
+	}
 	// seeded longer sequences
 	n := 2000
 	if tier == "thorough" {
